@@ -43,8 +43,13 @@ def prefixes(ctx):
 TEXTS = ['', 'a', 'a{}', 'aä', 'ä€', '@charset "', '@charset "x', '@charset "utf-8";', '@charset "utf-8";aä', '@charset "iso-8859-1";ä',
          '@charset "utf-16";x', '@chars', '@charsetx', '﻿a', '@charset "utf-8-sig";a', '@charset "utf_8_sig";a', '@charset "x";@charset "y";', '@CHARSET "x";a', '@Charset "utf-8";ä', '@charset  "x";a',
          # long (IANA style) names: the closing quote sits beyond the first two dozen bytes
-         '@charset "iso_8859-1:1987";ä', '@charset "csisolatincyrillic";a', '@charset "windows-1252";ä{}']
-ENCODINGS = ['utf-8', 'utf-8-sig', 'utf-16', 'utf-16-le', 'utf-16-be', 'utf-32', 'utf-32-le', 'utf-32-be', 'iso-8859-1', 'cp1252']
+         '@charset "iso_8859-1:1987";ä', '@charset "csisolatincyrillic";a', '@charset "windows-1252";ä{}',
+         # non-Latin content (for the long-named and the stateful encodings below): the last character is not ASCII
+         'я', '@charset "utf-8";aя', 'aあ', '@charset "utf-8";あ']
+ENCODINGS = ['utf-8', 'utf-8-sig', 'utf-16', 'utf-16-le', 'utf-16-be', 'utf-32', 'utf-32-le', 'utf-32-be', 'iso-8859-1', 'cp1252',
+             # names of 18 and more characters (the rewritten @charset rule's closing quote sits beyond byte 28) and stateful encodings
+             # (the encoder owes a final escape sequence that only the final call flushes)
+             'csisolatincyrillic', 'cspc850multilingual', 'iso2022_jp', 'hz']
 
 
 def partitions(n, full_limit):
@@ -214,8 +219,11 @@ def roundtrip_and_chunking(ctx):
                 except Exception as e:
                     gotr = f'<{type(e).__name__}: {e}>'
                 if gotr != oneshot and not (gotr == '' and t.startswith('@charset "') and t.find('"', 10) < 0) and not ('@charset "'.startswith(t) and gotr == ''):
+                    # recorded finding: the css StreamReader decodes each chunk statelessly, so a read that cuts an escape sequence of a
+                    # STATEFUL encoding raises 'incomplete / illegal multibyte sequence' (class: this clause, stateful encoding, that very error)
+                    kid = 'C07-streamreader-stateful-encoding' if (E in ('iso2022_jp', 'hz') and gotr.startswith('<UnicodeDecodeError') and 'multibyte sequence' in gotr) else None
                     ctx.violation('bounded: StreamReader equals one-shot for every read size', f'text {t!r} enc {E} size {size}: {gotr!r} != {oneshot!r}', True,
-                                  {'text': t, 'encoding': E, 'size': size})
+                                  {'text': t, 'encoding': E, 'size': size}, known_id=kid)
             if len(samples) < 3 and t and E != 'utf-8':
                 samples.append({'text': t, 'encoding': E, 'bytes': repr(data), 'partitions': 'all' if len(data) <= full_limit else '<=3 cuts'})
     ctx.bounded.append({'name': 'round trip and chunking', 'evaluations': n, 'distinct_nontrivial': len(nt),
